@@ -459,6 +459,9 @@ func (t *Tokenizer) tokenizeBuffer(buf []byte, last bool) error {
 		}
 	}
 	if last {
+		if 0 < len(t.starts) {
+			return t.newError(off, "incomplete JSON")
+		}
 		if len(t.mode) == 256 { // valid finishing maps are one byte longer
 			return t.newError(off, "incomplete JSON")
 		}
